@@ -15,7 +15,7 @@ from vlib.wire import Wire, same_json
 
 PROP = 'C20'
 MANIFEST = dict(
-    text="Symbolic check of the real PjRpcMocker through its public API: operation histories (kinds concrete: add result / add error / add callback / replace / remove method / remove endpoint / call / batch call / notification) "
+    text="Symbolic check of the real PjRpcMocker through its public API: operation histories (kinds concrete: add result / add error / add callback / replace / remove method / remove endpoint / reset / call / batch call / notification) "
          "of length <= 3 (quick) / <= 4 (thorough); the addressed (endpoint, method) pair of every operation, once flags, replace indices, request ids (int, unbounded) and argument values are z3 variables. "
          "A reference queue model written from the statement (round-robin, once = exactly one use, reply id == request id, -32601 for an unpatched method on a patched endpoint, passthrough / refusal for an endpoint without patches, "
          "element-wise batches, every call recorded) is compared with replies, ConnectionRefusedError / original transport calls and mocker.calls after every step.",
@@ -24,7 +24,7 @@ MANIFEST = dict(
          "Replies to notifications and to batch elements that hit an endpoint emptied earlier in the same batch are not asserted (statement silent).",
 )
 BOUNDS = {
-    'quick': {'history': '<= 3 operations over 9 kinds (at most one batch call), first operation is an add on (A, f) or a call; plus 6 targeted histories of 4-5 operations on one (endpoint, method) pair; pairs from {(A,f),(A,g),(B,f)}', 'transport': 'sync and async', 'passthrough': 'on and off'},
+    'quick': {'history': '<= 3 operations over 10 kinds (at most one batch call), first operation is an add on (A, f) or a call; plus 6 targeted histories of 4-5 operations on one (endpoint, method) pair; pairs from {(A,f),(A,g),(B,f)}', 'transport': 'sync and async', 'passthrough': 'on and off'},
     'thorough': {'history': '<= 3 operations in all 4 configurations, 4 operations (>= 2 requests) on the sync / refusing configuration; 6 targeted histories', 'transport': 'sync and async', 'passthrough': 'on and off'},
 }
 STUBS = ['S5', 'S12 mocker json -> wire model', 'S13', 'mock.patch start/stop executed untraced']
@@ -32,7 +32,7 @@ OUTSIDE = ['histories longer than the bound', 'replace / remove of a non-existen
 ASSUMPTIONS = ['batch ids are distinct']
 BUDGET = {'quick': 60.0, 'thorough': 300.0}
 
-OPS = ('add_r', 'add_e', 'add_c', 'replace', 'remove_m', 'remove_e', 'call', 'batch', 'notif')
+OPS = ('add_r', 'add_e', 'add_c', 'replace', 'remove_m', 'remove_e', 'reset', 'call', 'batch', 'notif')
 TARGETED = (
     ('add_r', 'add_r', 'replace', 'call'), ('add_r', 'add_e', 'call', 'call'), ('add_r', 'add_c', 'replace', 'call', 'call'),
     ('add_r', 'add_r', 'remove_m', 'call'), ('add_r', 'call', 'add_r', 'call', 'call'), ('add_r', 'add_r', 'add_r', 'call', 'call'),
@@ -60,9 +60,10 @@ def obligations(tier):
                         continue
                     if ops.count('batch') > 1:
                         continue          # two batches in one history do not exhaust within the budget
-                    if first == 'call' and n > 1 and ops[1] in ('replace', 'remove_m', 'remove_e'):
+                    if first == 'call' and n > 1 and ops[1] in ('replace', 'remove_m', 'remove_e', 'reset'):
                         continue          # nothing to replace / remove yet (vacuous)
-                    if tier == 'quick' and n == 3 and (transport == 'async' or pt) and ops.count('call') + ops.count('batch') < 2:
+                    if tier == 'quick' and n == 3 and (transport == 'async' or pt) and \
+                            (ops.count('call') + ops.count('batch') < 2 or 'batch' in ops):
                         continue
                     if n == 4 and (transport == 'async' or pt or ops.count('call') + ops.count('batch') + ops.count('notif') < 2
                                    or 'batch' in ops[:2]):
@@ -221,6 +222,10 @@ def _drive(env, ob, mocker, cls, wire, is_async, um, pjrpc, mock_target):
             mocker.remove(e)
             for k in [k for k in Q if k[0] == e]:
                 del Q[k]
+        elif op == 'reset':
+            mocker.reset()
+            Q.clear()
+            REC.clear()
         elif op in ('call', 'notif'):
             params, args, kwargs = mk_params(n)
             rid = env.int(f'id{n}') if op == 'call' else None
